@@ -7,6 +7,7 @@ import (
 	"math"
 	"os"
 	"path/filepath"
+	"regexp"
 	"sort"
 	"strconv"
 	"strings"
@@ -109,7 +110,9 @@ type CM struct {
 	pus    []planningunit.Id
 }
 
-func loadCM(dsPath string, limVar int, limit float64) (cm *CM, err error) {
+// loadCM loads a real model of the dataset; `extra` (optional) are further model parameters (the scenario constants the
+// derivation of the action constants depends on), default values otherwise.
+func loadCM(dsPath string, limVar int, limit float64, extra ...parameters.Map) (cm *CM, err error) {
 	defer func() {
 		if r := recover(); r != nil {
 			err = fmt.Errorf("panic while loading: %v", r)
@@ -120,6 +123,11 @@ func loadCM(dsPath string, limVar int, limit float64) (cm *CM, err error) {
 		return nil, e
 	}
 	params := parameters.Map{}
+	for _, e := range extra {
+		for k, v := range e {
+			params[k] = v
+		}
+	}
 	if limVar >= 0 {
 		params[varMaxKey[limVar]] = limit
 	}
@@ -297,6 +305,16 @@ func (cm *CM) emitLoad(c *Ctx) {
 		c.Op(fmt.Sprintf("max %s %s", varShort[cm.limVar], floatBits(cm.limit)), "ok")
 	}
 	c.Op("endload", cm.dump())
+	emitHypLines(c)
+}
+
+// emitHypLines asks the driver for the decidable hypotheses of the catchment theorems, one HYP token per line
+// (the `endload` line itself carries ApproxConsistent, evaluated on the data as extracted): the exact InitConsistent
+// on the normalised data the model runs on, KeysDistinct, UnitsOK.
+func emitHypLines(c *Ctx) {
+	c.Op("hyp init-consistent", "ok")
+	c.Op("hyp keys-distinct", "ok")
+	c.Op("hyp units-ok", "ok")
 }
 
 // ---------------------------------------------------------------- operations on the real model
@@ -320,17 +338,39 @@ func (cm *CM) changes() [6]float64 {
 	return ch
 }
 
-// verdict returns ChangeIsValid and the bounded variable's UndoableValue (NaN when valid / unbounded).
-func (cm *CM) verdict() (bool, float64, string) {
+// Verdict is what ChangeIsValid() answered.  For a negative verdict everything is read from the REASON TEXT the model
+// handed out (`errs.Error()`: "<variable name> <value> > upper bound <maximum>", numbers as crem's localised converter
+// prints them: six decimals, thousands separators) -- never by asking the variable again.
+type Verdict struct {
+	valid   bool
+	msg     string  // the reason text as delivered
+	parsed  bool    // the text has the expected shape
+	name    string  // the variable the text names
+	quoted  float64 // the value the text quotes
+	maximum float64 // the bound the text quotes
+}
+
+var boundReasonRe = regexp.MustCompile(`^(\S+) (-?[0-9][0-9,]*\.[0-9]{6}) > upper bound (-?[0-9][0-9,]*\.[0-9]{6})$`)
+
+func parseLocalisedNumber(t string) (float64, bool) {
+	f, err := strconv.ParseFloat(strings.ReplaceAll(t, ",", ""), 64)
+	return f, err == nil
+}
+
+func (cm *CM) verdict() Verdict {
 	ok, errs := cm.m.ChangeIsValid()
 	if ok {
-		return true, math.NaN(), ""
+		return Verdict{valid: true, quoted: math.NaN()}
 	}
-	q := math.NaN()
-	if cm.limVar >= 0 {
-		q = cm.uv(cm.limVar).UndoableValue()
+	v := Verdict{msg: errs.Error(), quoted: math.NaN(), maximum: math.NaN()}
+	if m := boundReasonRe.FindStringSubmatch(v.msg); m != nil {
+		q, ok1 := parseLocalisedNumber(m[2])
+		mx, ok2 := parseLocalisedNumber(m[3])
+		if ok1 && ok2 {
+			v.parsed, v.name, v.quoted, v.maximum = true, m[1], q, mx
+		}
 	}
-	return false, q, errs.Error()
+	return v
 }
 
 func initKindOf(s string) model.InitialisationType {
@@ -371,8 +411,8 @@ type Ref struct {
 	cache map[string]*Snap
 }
 
-func newRef(dsPath string, limVar int, limit float64) (*Ref, error) {
-	cm, err := loadCM(dsPath, -1, 0)
+func newRef(dsPath string, limVar int, limit float64, extra ...parameters.Map) (*Ref, error) {
+	cm, err := loadCM(dsPath, -1, 0, extra...)
 	if err != nil {
 		return nil, err
 	}
